@@ -205,7 +205,20 @@ class Peer(object):
                 self.stream.write(R.message(R.REPLY, seq, (R.L_VALUE, tok)))
 
 
+BAD_FIRST = [None]        # index of the requester whose first request cannot be encoded (or None)
+BIG = 10 ** 5000
+
+
 def requester(conn, i, nreq, out):
+    if BAD_FIRST[0] == i:
+        # a request that passes boxing but cannot be encoded: refused here, with ValueError, and nothing else is disturbed
+        try:
+            conn.sync_request(consts.HANDLE_PING, BIG)
+            REFUSED.append("accepted")
+        except ValueError:
+            REFUSED.append("refused")
+        except Exception as ex:     # noqa
+            REFUSED.append("other:%s" % type(ex).__name__)
     for j in range(nreq):
         tok = ("tok", i, j)
         try:
@@ -219,9 +232,13 @@ def requester(conn, i, nreq, out):
             out.append((i, j, "exc", repr(ex)))
 
 
+REFUSED = []
+
+
 def make_run(nreq_threads, nreq, bg, stop_at_stall=False, timeout=30):
     def run(prefix, want_state, cut_fn):
         gc.disable()
+        del REFUSED[:]
         a, b = simnet.SimStream.pair("c", "s")
         conn = Connection(VoidService(), Channel(a, compress=False), {"sync_request_timeout": timeout})
         peer = Peer(b, nreq_threads * nreq)
@@ -296,6 +313,8 @@ def make_run(nreq_threads, nreq, bg, stop_at_stall=False, timeout=30):
                 bad = [g for g in got if g not in want]
                 kinds = sorted(set(g[2] for g in bad)) or ["missing"]
                 v13.append(("wrong-reply:" + ",".join(kinds), "requesters observed %r, expected %r" % (got, want)))
+            if BAD_FIRST[0] is not None and REFUSED != ["refused"]:
+                v13.append(("unencodable-request-not-refused", repr(REFUSED)))
             if len(set(peer.seen)) != len(peer.seen):
                 v13.append(("seq-reused", "peer saw sequence numbers %r" % (peer.seen,)))
             if peer.garbage:
@@ -349,6 +368,7 @@ CONFIGS = {
         ("3req/pb1", 3, 1, False, 1, True),
         ("2req-x2/pb1", 2, 2, False, 1, True),
         ("1req+poller/pb2", 1, 1, "poller", 2, True),
+        ("2req+unencodable/pb2", 2, 1, False, 2, True),
     ],
     "thorough": [
         ("1req+bg", 1, 1, True, None, True),
@@ -359,6 +379,7 @@ CONFIGS = {
         ("3req+bg/pb2", 3, 1, True, 2, True),
         ("1req+poller/pb3", 1, 1, "poller", 3, True),
         ("2req+poller/pb2", 2, 1, "poller", 2, True),
+        ("2req-x2+unencodable/pb2", 2, 2, False, 2, True),
     ],
 }
 
@@ -366,6 +387,7 @@ CONFIGS = {
 def explore_config(cfg, which, max_seconds, stop_on_violation=True, collect_all=False):
     name, nt, nr, bg, bound, par = cfg
     prepare()
+    BAD_FIRST[0] = (nt - 1) if "+unencodable" in name else None
     run = adapt(make_run(nt, nr, bg, stop_at_stall=(which == "C14")), which)
     if par:
         ex = explore.ParallelExplorer(run, bound=bound, max_seconds=max_seconds, stop_on_violation=stop_on_violation)
@@ -381,6 +403,7 @@ def replay_one(cfgname, choices, which, configs=None):
     cfg = [c for c in configs["thorough"] + configs["quick"] if c[0] == cfgname][0]
     name, nt, nr, bg, bound, par = cfg
     prepare()
+    BAD_FIRST[0] = (nt - 1) if "+unencodable" in name else None
     run = adapt(make_run(nt, nr, bg, stop_at_stall=(which == "C14")), which)
     outs = []
     for _ in range(2):
